@@ -3,8 +3,8 @@
    including the first line where the end pattern is found, or the end of input; one-byte markers in binary). *)
 From Coq Require Import String ZArith NArith List Bool Arith.
 From Coq Require Import Floats.SpecFloat.
-From Cfi Require Import Glue.Sx Py.PyStr Py.PyNum Py.PyBits Py.PyDate Model.Field Model.Line Model.Reader.
-From Cfi Require Import Proofs.ReaderProofs.
+From Cfi Require Import Glue.Sx Py.PyStr Py.PyNum Py.PyBits Py.PyDate Py.PyRe Model.Field Model.Line Model.Reader.
+From Cfi Require Import Proofs.ReaderProofs Proofs.ReProofs.
 Import ListNotations.
 
 (* reading any content terminates within fuel |content|+1 *)
@@ -64,8 +64,35 @@ Theorem C12_refuted_binary_dispatch : forall bs fuel s es,
   read_blockfile false Binary bs fuel s = Some es -> Forall (fun e => fst e = None) es.
 Proof. exact blockfile_binary_as_found. Qed.
 
+(* "found in the line": begin and end patterns are regular expressions (literals, classes, . \s \d, ^ $, concatenation,
+   alternation, * + ? {m,n}); pat_search decides exactly whether SOME stretch line[i:j] is matched (M is the textbook
+   denotational semantics, Proofs/ReProofs.v) -- for every expression and every line, nested stars included *)
+Theorem C12_found : forall p line, pat_search p line = true <-> exists i j, i <= List.length line /\ M line p i j.
+Proof. exact re_search_spec. Qed.
+Print Assumptions C12_found.
+
+(* the literal-only pattern language of the earlier model is an instance: substring search, prefix test, disjunction *)
+Theorem C12_found_literal : forall l line, pat_search (re_lit l) line = contains l line.
+Proof. exact re_search_lit. Qed.
+Print Assumptions C12_found_literal.
+Theorem C12_found_anchored_literal : forall l line, pat_search (RSeq RBol (re_lit l)) line = starts_with l line.
+Proof. exact re_search_anchored_lit. Qed.
+Print Assumptions C12_found_anchored_literal.
+Theorem C12_found_alternation : forall a b line, pat_search (RAlt a b) line = pat_search a line || pat_search b line.
+Proof. exact re_search_alt. Qed.
+Print Assumptions C12_found_alternation.
+(* the empty pattern -- the Block class default -- is found in every line *)
+Theorem C12_found_empty : forall line, pat_search REps line = true.
+Proof. exact re_search_eps. Qed.
+Print Assumptions C12_found_empty.
+
+Example C12_example_regex :
+  let r := RSeq RBol (RSeq (RStar (RChr (CSpace false false))) (RSeq (re_lit (s2l "DADOS"%string)) (re_plus (RChr (CDigit false false))))) in
+  pat_search r (s2l "  DADOS42 x"%string) = true /\ pat_search r (s2l "x DADOS42"%string) = false.
+Proof. vm_compute. split; reflexivity. Qed.
+
 Example C12_example :
-  let bs := [ {| b_begin := [(true, s2l "BEGIN"%string)]; b_end := [(false, s2l "END"%string)] |} ] in
+  let bs := [ {| b_begin := RSeq RBol (re_lit (s2l "BEGIN"%string)); b_end := re_lit (s2l "END"%string) |} ] in
   read_blockfile true Text bs 60 (s2l "x"%string ++ [NL] ++ s2l "BEGIN a"%string ++ [NL] ++ s2l "b END"%string ++ [NL] ++ s2l "y"%string)
   = Some [ (None, s2l "x"%string ++ [NL]); (Some 0, s2l "BEGIN a"%string ++ [NL] ++ s2l "b END"%string ++ [NL]); (None, s2l "y"%string) ].
 Proof. vm_compute. reflexivity. Qed.
